@@ -81,7 +81,7 @@ CFGS = {
     "WitReplayLife": rep(LIFE, MaxSeq="3", MaxSaves="5", MaxAcks="5", MaxNotify="5", MaxEnds="6", Hold="TRUE"),
     # ---- start-up faults ------------------------------------------------------------------------------------
     # a fail-over while streaming: transient end, re-open answered ROLLBACK(r), history above r discarded, new snapshots
-    "MCReopenQ": mc(GEN, MaxSeq="3", Kinds='{"mut"}', Keys='{"user"}', OldEvents="FALSE", BadEvents="FALSE", MaxEnds="1",
+    "MCReopenQ": mc(GEN, MaxSeq="3", Kinds='{"mut"}', Keys='{"user"}', OldEvents="FALSE", BadEvents="FALSE", MaxEnds="2",
                     EndCauses='{"statechanged"}', MaxCrash="0", MaxSaves="0", MaxAcks="1", MaxGen="6"),
     "MCReopen": mc(GEN, MaxSeq="3", Kinds='{"mut", "adv"}', Keys='{"user"}', OldEvents="FALSE", BadEvents="FALSE", MaxEnds="2",
                    EndCauses='{"statechanged", "socket"}', MaxCrash="0", MaxSaves="1", MaxAcks="1", MaxGen="6"),
@@ -112,8 +112,9 @@ CFGS = {
                  Rollbacks="FALSE", MaxCrash="0", MaxSaves="1", MaxAcks="0", AllowClose="TRUE", Focus="TRUE"),
     "WitReplayRm": rep(GEN, RM="TRUE", Slots="2", MaxSeq="4", MaxSaves="10", MaxAcks="10", MaxCrash="0", MaxGen="4", AllowClose="TRUE", Rollbacks="FALSE"),
     "MCMetricQ": mc(LIFE, Scrapes="TRUE", HookScrapes="TRUE", MaxNotify="1", MaxEnds="0", MaxSaves="0", MaxAcks="1", MaxSeq="1", Hold="TRUE", AllowClose="FALSE", AutoCkpt="FALSE"),
-    "MCMetric": mc(LIFE, Scrapes="TRUE", HookScrapes="TRUE", MaxNotify="1", MaxEnds="1", MaxSaves="0", MaxAcks="1", MaxSeq="1", Hold="TRUE",
-                   Kinds='{"mut", "del"}', Keys='{"user", "conn"}'),
+    "MCMetric": mc(LIFE, Scrapes="TRUE", HookScrapes="TRUE", MaxNotify="1", MaxEnds="0", MaxSaves="0", MaxAcks="1", MaxSeq="1", Hold="TRUE",
+                   Kinds='{"mut", "del"}', Keys='{"user", "conn"}', AutoCkpt="FALSE"),
+    "MCMetric2": mc(LIFE, Scrapes="TRUE", HookScrapes="TRUE", MaxNotify="0", MaxEnds="1", MaxSaves="0", MaxAcks="1", MaxSeq="1", Hold="TRUE", AutoCkpt="FALSE"),
     "SimMetric": simc(LIFE, 55, Scrapes="TRUE", HookScrapes="TRUE", MaxNotify="2", MaxEnds="2", MaxSaves="2", MaxAcks="3", MaxSeq="3", Hold="TRUE",
                       Kinds='{"mut", "del", "exp", "sys", "adv"}', Keys='{"user", "conn"}', OldEvents="TRUE"),
     "MCFaultQ": mc(FAULT, MaxFail="1"),
